@@ -425,7 +425,7 @@ func (s *St) exec(call string) (rcall string, res string) {
 		room := s.opt.SegmentSize - s.datEnd - 42 - int64(len(S(0))) - int64(len(S(1)))
 		v := []byte("v")
 		if s.datEnd >= 0 && tx.VerifPending() == 0 && room >= 0 && room <= s.opt.SegmentSize {
-			v = []byte(strings.Repeat("F", int(room)))
+			v = []byte(strings.Repeat("\x01", int(room)))
 		}
 		return "put " + a[0] + " " + a[1] + " " + hx(v) + " 0 1700000000", errOr(tx.PutWithTimestamp(S(0), B(1), v, 0, 1700000000), "ok")
 	case "putnow": // Put with the library's own clock; ts is an oracle input read from the clock
